@@ -19,8 +19,9 @@ REFINED = ["serde UBig/IBig binary (LE bytes, sign in the length parity) encode/
 FRONTIER = ["float text (Display without precision / from_str_native): mirrored and run, round trip not proved",
             "integer kernels of C01/C02/C09/C07 keep the frontier of those properties",
             "std log2 estimator (f32::log2 / next_up / next_down): replicated with Lean's compiled Float32, bounds checked exactly per call"]
-RULE = ("clause 1: the case generators of C01, C02, C09, C07 (+ operands sized in 32-bit words around the word-count "
-        "thresholds) wrapped as `cfgall <op> …`: every configuration of the run evaluates the case, the front demands byte-"
+RULE = ("clause 1: the case generators of C01, C02, C09, C05, C07, C08, C06, C12, C13, C03, C10, C04, C14 (integer ring / division / "
+        "bits / comparison / text / conversions / number theory / modular / float and rational arithmetic / cross-type), sampled per "
+        "run (+ operands sized in 32-bit words around the word-count thresholds), wrapped as `cfgall <group>/<op> …`: every configuration of the run evaluates the case, the front demands byte-"
         "identical answers, and the answer is compared with the Lean model at W=64 and W=32 (which must agree). clause 3: "
         "values of every type (sizes around the inline/heap boundary and the 1/2/3-byte varint length boundaries, both sign/"
         "parity combinations, non-reduced inputs, significands with factors of the base, exponents up to the isize range) "
@@ -87,7 +88,7 @@ def inherited(args, impl, model, op):
     inner = args if op == "cfgall" else args[1:]
     if not inner:
         return False
-    c = Case(inner[0], inner[1:])
+    c = Case(inner[0].split("/")[-1], inner[1:])      # `<group>/<op>` -> the op as its property knows it
     for f in core.load_findings():
         if f["property"] == "C19":
             continue
@@ -100,6 +101,36 @@ def inherited(args, impl, model, op):
                 return True
         except Exception:
             continue
+    return False
+
+
+def foreign_uniform(args, impl, model):
+    """an op of another property (`<group>/<op>`) on which every configuration gives the same answer and the
+    owning property's model gives another one: C19's claim (independence from the configuration) holds on this
+    input; whether the common answer is right is the owning property's question"""
+    inner = args if (args and "/" in args[0]) else args[1:]
+    if not inner or "/" not in inner[0]:
+        return False
+    if impl.startswith(("config-disagree", "build-failed", "crash", "bad-", "hang", "missing")):
+        return False
+    return "!model-" not in model and not model.startswith("bad-")
+
+
+def with_base_threshold(args):
+    """base conversion whose exponent magnitude lies between the direct-power thresholds of the two word sizes
+    (Word::BITS * 0.60206 = 19 resp. 38): the 32-bit build takes the ln/exp path, the 64-bit build the exact one"""
+    inner = args if (args and "/" in args[0]) else args[1:]
+    if not inner or not inner[0].split("/")[-1].startswith("f.with_base"):
+        return False
+    for a in inner[1:]:
+        m = re.fullmatch(r"f:(\d+):(-?[0-9a-f]+):(-?\d+):(\d+):\w+", a)
+        if m:
+            B, sig, e = int(m.group(1)), int(m.group(2), 16), int(m.group(3))
+            if sig == 0:
+                return False
+            while sig % B == 0:
+                sig //= B; e += 1
+            return 19 < abs(e) <= 38
     return False
 
 
@@ -473,27 +504,54 @@ def gen_decode_json(rng, tier):
 
 # ---------------------------------------------------------------------------------- clause 1
 
-W_DEPENDENT = re.compile(r"^(cd\.|w\.|k\.)|ismultipleconst")     # ops whose arguments are machine words of the build
+# ops whose arguments are machine words of the build, or whose answer is about the representation (word counts,
+# which dispatch route was taken, the words fed to a hasher) rather than about the value
+W_DEPENDENT = re.compile(r"^(cd\.|w\.|k\.|nm\.)|ismultipleconst|frompartsconst|routes|hashfeed|^c\.ones$")
+LOG2B = re.compile(r"log2b")                       # answers differ between the std and the no_std estimator
+NOSTD_LOG2B = ("p.log2b", "p.log2brange", "p.flog2b", "u.log2b")   # the ones C12's driver models for the no_std build
 
-def wrap_other(rng, tier):
-    """the case generators of the word-level properties, every case evaluated by every configuration"""
-    quota = {"c01": 900, "c02": 900, "c09": 500, "c07": 500} if tier == "quick" else \
-            {"c01": 12000, "c02": 12000, "c09": 6000, "c07": 6000}
-    for name, k in quota.items():
+# (property module, cases per run in the quick tier, in the thorough tier); the group (= which exec_<group> /
+# drive_<group> dispatch chain evaluates the op) is the module's GROUP
+WRAP = [("c01", 700, 8000), ("c02", 700, 8000), ("c09", 400, 5000), ("c05", 300, 3000), ("c07", 400, 5000), ("c08", 300, 3000),
+        ("c06", 400, 5000), ("c12", 400, 5000), ("c13", 400, 5000), ("c03", 300, 4000), ("c10", 300, 3000), ("c04", 400, 4000),
+        ("c14", 300, 3000)]
+GROUPS = ("int", "div", "bits", "text", "conv", "nt", "float", "ratio", "cross")
+
+def wrap_other(rng, tier, confs):
+    """every property's case generator, replayed in every configuration: `cfgall <group>/<op> …` (all builds
+    byte-identical and equal to the model at both word sizes); the log2_bounds family per configuration"""
+    for name, kq, kt in WRAP:
+        k = kq if tier == "quick" else kt
         try:
             M = importlib.import_module("vlib.props." + name)
+            group = M.GROUP
+            if group not in GROUPS:
+                continue
             sub = random.Random(rng.getrandbits(64))
             cases = list(M.generate(sub, "quick" if tier == "quick" else "thorough"))
         except Exception as e:                       # a broken neighbour must not disable C19
             core.log("C19: generator of %s unavailable (%s)" % (name, e))
             continue
-        cases = [c for c in cases if not W_DEPENDENT.search(c.op) and not any(a.startswith("w:") for a in c.args)]
-        if tier == "quick":
-            cases = [c for c in cases if sum(len(a) for a in c.args) < 12000]
-        if len(cases) > k:
-            cases = sub.sample(cases, k)
+        flat = []
         for c in cases:
-            yield Case("cfgall", [c.op] + c.args)
+            op, args = c.op, c.args
+            if op == "ns" and len(args) >= 2:        # C12's own no_std replay: take the inner op, every configuration asks it itself
+                op, args = args[1], args[2:]
+            if W_DEPENDENT.search(op) or any(a.startswith("w:") for a in args):
+                continue
+            if tier == "quick" and sum(len(a) for a in args) > 12000:
+                continue
+            flat.append((op, args))
+        if len(flat) > k:
+            flat = sub.sample(flat, k)
+        for op, args in flat:
+            if LOG2B.search(op):
+                for conf in confs:
+                    if "-nostd-" in conf and op not in NOSTD_LOG2B:
+                        continue
+                    yield Case("cfg", [conf, group + "/" + op] + args)
+            else:
+                yield Case("cfgall", [group + "/" + op] + args)
 
 
 def words32(rng, tier):
@@ -566,4 +624,4 @@ def generate(rng, tier):
     yield from gen_decode_pc(rng, tier)
     yield from gen_decode_json(rng, tier)
     yield from words32(rng, tier)
-    yield from wrap_other(rng, tier)
+    yield from wrap_other(rng, tier, confs)
